@@ -1,7 +1,8 @@
 """C14 — broken rule files give errors, not crashes, and recovery is complete.
 Fault enumeration on a private copy of Rules/ (one per worker) with a harness-owned clock for file times:
-every rule file reachable from a configuration x every fault kind x {fault before first load, fault after load},
-followed by repair (file restored with a newer time stamp, CheckRuleFiles=All, rules directory re-pointed)."""
+every rule file reachable from a configuration x every fault kind x order of fault / call / repair (before or after the first load,
+with or without a call under the fault, in a file only another configuration reads) x recovery (file checking and re-pointing,
+file checking alone, re-pointing alone)."""
 import json, os, re, shutil
 from common import Run, norm_ids, is_ok, is_err, is_panic, val, short
 import terms, mcx
@@ -231,6 +232,11 @@ def names_file(msg, rel):
     return base in msg or rel in msg
 
 
+def payload_id(payload):
+    import hashlib
+    return hashlib.sha1((payload or "").encode("utf-8")).hexdigest()[:12] if payload is not None else "-"
+
+
 def work(item):
     cfg, baselines, scen = item
     baseline = baselines[cfg]
@@ -242,16 +248,16 @@ def work(item):
         cases.append(ops)
         if fname == "truncated-mid-entry" and wellformed_list(payload):
             fname = "truncated-at-entry"          # the cut happened to leave a well-formed shorter list
-        meta.append((rel, klass, fname, kind, order, idx))
+        meta.append((rel, klass, fname, kind, order, idx, payload_id(payload)))
     _, res = mc.run_cases([], cases, fresh=True, keep_going=True, per_case_timeout=60.0)
     viol, counts, nontriv = [], {"evaluations": 0, "calls_under_fault": 0, "errors_naming_file": 0, "ok_unchanged": 0, "ok_changed_allowed": 0, "recovered": 0}, []
     NG = len(GETTERS)
-    for (rel, klass, fname, kind, order, idx), r in zip(meta, res):
+    for (rel, klass, fname, kind, order, idx, pid_), r in zip(meta, res):
         counts["evaluations"] += 1
         when, rec, other = parse_order(order)
         # class of the order for keys: the bystander configuration's name is not part of the class
         oclass = (when if when != "other" else "other-config") + ("@" + rec if rec else "")
-        replay = {"cfg": cfg, "file": rel, "class": klass, "fault": fname, "order": order, "scenario_index": None}
+        replay = {"cfg": cfg, "file": rel, "class": klass, "fault": fname, "order": order, "payload_id": pid_}
         sig = []
         fclass = {"deleted": "deleted", "empty": "unparsable", "scalar": "unparsable", "map": "unparsable", "not-yaml": "unparsable", "truncated-mid-entry": "unparsable",
                   "prefs-wrong-shape": "unparsable", "truncated-at-entry": "truncated-at-entry"}.get(fname, fname)
@@ -419,7 +425,8 @@ def confirm(replay, verbose=False):
         _, _, other = parse_order(replay["order"])
         lang, style, code = CONFIGS[other or cfg]
         sc = [(rel, klass, fname, kind, payload, order) for rel, klass in reachable_files(lang, style, code) if rel == replay["file"]
-              for fname, kind, payload in faults_for(rel, klass, "thorough") if fname == replay["fault"] for order in (replay["order"],)]
+              for fname, kind, payload in faults_for(rel, klass, "thorough")
+              if (payload_id(payload) == replay["payload_id"] if replay.get("payload_id") else fname == replay["fault"]) for order in (replay["order"],)]
         v, _, _ = work((cfg, baselines, sc))
     finally:
         mcx._worker_mc = old
@@ -521,12 +528,15 @@ def main(tier):
         rule="files: every rule file reachable from the configuration (prefs, 3 levels of definitions, intent.yaml + Intent/*, style file and SharedRules, unicode, unicode-full, "
              "navigate, overview, regional files, braille rules/unicode/definitions); fault kinds: deleted, empty, top-level scalar, top-level map, not YAML, truncated at entry "
              "boundaries (quick: 4 per file; thorough: all for files <= 300 entries, else first/last 50 and every 25th), truncated mid-entry, rule with uncompilable XPath, rule "
-             "with unknown key, wrongly typed definition, bad character entry, prefs of the wrong shape; orders: fault before first load / after load; then repair + CheckRuleFiles=All + "
-             "re-pointing; 7 directory-level histories per configuration (wrong dir, empty dir, Languages/Braille/language/code directory removed, prefs.yaml missing at first init). "
+             "with unknown key, wrongly typed definition, bad character entry, prefs of the wrong shape; orders of fault, call and repair: fault before first load / after load, with and "
+             "without a call while the fault is present; recovery by file checking + re-pointing (every scenario), and by each remedy ALONE (file checking only / re-pointing only: "
+             "quick - one fault of each kind per file of the first configuration, thorough - all); faults in files that only ANOTHER configuration reads, met by switching to it and "
+             "back (calls under the bystander configuration must be unaffected, both configurations must recover; quick 2 ordered pairs, thorough all 6); "
+             "7 directory-level histories per configuration (wrong dir, empty dir, Languages/Braille/language/code directory removed, prefs.yaml missing at first init). "
              "distinct_nontrivial = distinct (configuration, file class, fault, order, outcome signature) tuples",
         assumptions=["file times come from a harness counter (File::set_modified); no wall-clock enters the oracle",
                      "under a shape-preserving fault (truncation at an entry boundary) or a deleted file with a documented fallback, any Ok result is accepted",
-                     "recovery is demanded after the strongest repair the statement offers (file restored with newer time, CheckRuleFiles=All, rules directory re-pointed)"],
+                     "when set_rules_dir/set_preference itself was refused under the fault, recovery by file checking alone is not demanded (the caller has to re-issue the refused call)"],
         confirm=confirm)
 
 
